@@ -398,4 +398,4 @@ def run(ctx, res):
     d = common.Dispatcher(ctx)
     c05.rule_error_codes(ctx, res, d)
     # lookup key and family filter of get_peers are decided by the C05 field rules (values = find_items(query info_hash).filter(family))
-    c05.rule_one_reply(ctx, lib.Filtered(res, r'^values'), d)
+    c05.rule_one_reply(ctx, lib.Filtered(res, r'^values'), d, exact_values=True)
